@@ -179,7 +179,12 @@ def run_parser(I, name, text, **kwargs):
             r, raised = None, ex.exc.name
         errs = [e[2] for e in I.effects if e[0] == "report" and e[1] in ("error", "critical")][n0:]
         return r, ctx.fields["pos"], errs, raised
-    ps = I.explore(thunk)
+    from ..engine.interp import StepBudget
+    try:
+        ps = I.explore(thunk)
+    except StepBudget:
+        # concrete text, deterministic parser: the loop does not end
+        return None, 0, [], "NonTermination (no end within 400000 statements: the parser loops on this text)"
     if len(ps) != 1 or ps[0].kind != "return":
         raise Unknown(f"parser {name} on {text!r}: {ps}")
     return ps[0].value
